@@ -238,6 +238,19 @@ func (a *absState) compute(v ssa.Value, d int) bool {
 		return true
 	case *ssa.UnOp:
 		if x.Op == token.MUL {
+			if _, isField := x.X.(*ssa.FieldAddr); isField {
+				// a field of a context struct: every value stored into it must be absolute
+				os, ok := fieldOrigins(x, 0)
+				if !ok || len(os) == 0 {
+					return false
+				}
+				for _, o := range os {
+					if !a.isAbs(o.V, d+1) {
+						return false
+					}
+				}
+				return true
+			}
 			if cell := cellOf(x.X); cell != nil {
 				sts := cellStores(cell)
 				if len(sts) == 0 {
